@@ -168,7 +168,8 @@ fn eval_builtin_incbin(
                 query.report,
                 query.args[2].span)?;
 
-            start + size
+            // Saturates to a range that ends after EOF
+            start.saturating_add(size)
         }
         else
         {
@@ -341,7 +342,8 @@ fn eval_builtin_incstr(
                 query.report,
                 query.args[2].span)?;
 
-            start + size
+            // Saturates to a range that ends after EOF
+            start.saturating_add(size)
         }
         else
         {
@@ -349,7 +351,7 @@ fn eval_builtin_incstr(
         }
     };
 
-    if (start * bits_per_char) >= bigint_size
+    if start.saturating_mul(bits_per_char) >= bigint_size
     {
         query.report.error_span(
             format!(
@@ -361,7 +363,7 @@ fn eval_builtin_incstr(
         return Err(());
     }
 
-    if (end * bits_per_char) > bigint_size
+    if end.saturating_mul(bits_per_char) > bigint_size
     {
         query.report.error_span(
             format!(
